@@ -17,7 +17,9 @@ import (
 // the explored schedule ran them.
 //
 // Accesses made by frames of harness code (files zz_verif_*, package zzverifrt) are not tracked: the
-// harness's own test doubles rely on the engine's baton. Accesses during lazily executed package
+// harness's own test doubles rely on the engine's baton. Nor are accesses made by frames of the library MODELS
+// (arrow/array, arrow/ipc, cbor ...): they stand for libraries whose internal synchronisation is part of their
+// contract, and they keep global bookkeeping (token table, live-object counters) of their own. Accesses during lazily executed package
 // initialisers are not tracked either (Go runs them before main).
 
 type vclock []uint32
@@ -67,6 +69,7 @@ type raceState struct {
 	reports []string
 	seen    map[string]bool
 	checked int64
+	ignore  map[*value]bool // bookkeeping globals of the library models (Verif*)
 }
 
 func newRaceState() *raceState {
@@ -193,6 +196,10 @@ func hbHarnessFrame(fr *frame) bool {
 	}
 	if fn.Prog != nil && fn.Pos().IsValid() {
 		name := fn.Prog.Fset.Position(fn.Pos()).Filename
+		if ModelFiles[name] {
+			fr.harness = true
+			return true
+		}
 		if k := strings.LastIndexByte(name, '/'); k >= 0 {
 			name = name[k+1:]
 		}
@@ -269,6 +276,17 @@ func (i *interpreter) raceObj(m *omap, write bool) {
 
 func (i *interpreter) raceAccess(key interface{}, write bool, what string) {
 	rs := i.race
+	if rs.ignore == nil {
+		rs.ignore = map[*value]bool{}
+		for g, cell := range i.globals {
+			if strings.HasPrefix(g.Name(), "Verif") {
+				rs.ignore[cell] = true
+			}
+		}
+	}
+	if p, ok := key.(*value); ok && rs.ignore[p] {
+		return
+	}
 	t := i.curTask
 	vc := *i.hbClock(t)
 	rs.checked++
@@ -351,4 +369,27 @@ func (i *interpreter) hbTimerTick(tm *vtimer) {
 	}
 	i.hbSync(chanSlot{tm.ch, tm.ch.sendx % tm.ch.cap}).join(tm.vc)
 	tm.ch.sendx++
+}
+
+// modelFrame: is fr a frame of a library-model file?
+func modelFrame(fr *frame) bool {
+	if fr == nil || fr.fn == nil || len(ModelFiles) == 0 {
+		return false
+	}
+	fn := fr.fn
+	for fn.Parent() != nil {
+		fn = fn.Parent()
+	}
+	if fn.Prog == nil || !fn.Pos().IsValid() {
+		return false
+	}
+	return ModelFiles[fn.Prog.Fset.Position(fn.Pos()).Filename]
+}
+
+// hbAtomic: a sync/atomic operation on cell p (acquire + release), unless it is bookkeeping of a library model.
+func (i *interpreter) hbAtomic(fr *frame, p *value) {
+	if i.race == nil || modelFrame(fr) || (fr != nil && modelFrame(fr.caller)) {
+		return
+	}
+	i.hbAcqRel(i.curTask, p)
 }
